@@ -490,6 +490,12 @@ class Options:
         invalid_code_names_here = (
             enabled_code_names | disabled_code_names
         ) - valid_error_code_names
+        # Per-module sections of a config file are applied later (apply_changes); validate them here.
+        for changes in self.per_module_options.values():
+            for key in ("enable_error_code", "disable_error_code"):
+                names = changes.get(key, ())
+                if isinstance(names, (list, tuple, set)):
+                    invalid_code_names_here |= {str(n) for n in names} - valid_error_code_names
         if invalid_code_names_here:
             error_callback(f"Invalid error code(s): {', '.join(sorted(invalid_code_names_here))}")
 
@@ -540,12 +546,17 @@ class Options:
         # Similar to global codes enabling overrides disabling, so we start from latter.
         new_options.disabled_error_codes = self.disabled_error_codes.copy()
         new_options.enabled_error_codes = self.enabled_error_codes.copy()
+        # Invalid error codes have been reported by process_error_codes(); ignore them here.
         for code_str in new_options.disable_error_code:
-            code = error_codes[code_str]
+            code = error_codes.get(code_str)
+            if code is None:
+                continue
             new_options.disabled_error_codes.add(code)
             new_options.enabled_error_codes.discard(code)
         for code_str in new_options.enable_error_code:
-            code = error_codes[code_str]
+            code = error_codes.get(code_str)
+            if code is None:
+                continue
             new_options.enabled_error_codes.add(code)
             new_options.disabled_error_codes.discard(code)
         return new_options
